@@ -74,6 +74,12 @@ class Report:
 
     # --- finish ------------------------------------------------------
     def finish(self):
+        if os.environ.get("VERIF_SELFTEST_CHILD"):
+            # sub-run on a mutated scratch copy: report failing obligations only, write nothing
+            bad = [o for o in self.obls if not o["ok"]]
+            for o in bad:
+                print(f'SELFTEST-FAILED-OB {o["rule"]}\t{o["key"]}\t{o["file"]}:{o["line"]}')
+            return 1 if bad else 0
         known, _fixed = load_known_findings()
         known = known.get(self.pid, {})
         bad = [o for o in self.obls if not o["ok"]]
@@ -140,6 +146,7 @@ class Report:
             samples=samples,
             known_findings=[k for k, _, _ in kf],
             exhaustive=True,
+            selftest=getattr(self, "selftest", None),
             notes=self.notes,
         )
         ev = dict(
@@ -163,7 +170,13 @@ def rel(path):
 def main_wrapper(pid, fn, level="other"):
     rep = Report(pid, level=level)
     try:
+        if rep.tier == "thorough" and not os.environ.get("VERIF_SELFTEST_CHILD"):
+            # thorough: never trust cached facts
+            os.environ["VERIF_FORCE_FACTS"] = "1"
         fn(rep)
+        if rep.tier == "thorough" and not os.environ.get("VERIF_SELFTEST_CHILD"):
+            from . import selftest
+            selftest.run(rep)
         return rep.finish()
     except AnalysisError as e:
         print(f"ANALYSIS-ERROR property={pid}: {e}")
